@@ -16,6 +16,17 @@ use std::time::Duration;
 enum Wm {
     Bounded(u64),
     Monotonic,
+    /// BoundedOutOfOrder with a delay that does not fit u64 milliseconds ("never late"):
+    /// 0 = Duration::MAX, 1 = Duration::from_secs(u64::MAX), 2 = Duration::from_millis(u64::MAX)
+    BoundedHuge(u8),
+}
+
+fn huge_delay(k: u8) -> Duration {
+    match k % 3 {
+        0 => Duration::MAX,
+        1 => Duration::from_secs(u64::MAX),
+        _ => Duration::from_millis(u64::MAX),
+    }
 }
 #[derive(Clone, Debug, PartialEq)]
 enum Late {
@@ -40,7 +51,10 @@ struct Case {
 impl Case {
     fn to_json(&self) -> Json {
         json!({
-            "watermark": match &self.wm { Wm::Bounded(d) => json!({"bounded_out_of_order_ms": d}), Wm::Monotonic => json!("monotonic") },
+            "watermark": match &self.wm { Wm::Bounded(d) => json!({"bounded_out_of_order_ms": d}), Wm::Monotonic => json!("monotonic"), Wm::BoundedHuge(k) => {
+                let name = ["Duration::MAX", "Duration::from_secs(u64::MAX)", "Duration::from_millis(u64::MAX)"][*k as usize % 3];
+                json!({"bounded_out_of_order_huge": k, "delay": name})
+            } },
             "late": match &self.late { Late::Drop => json!("drop"), Late::Allowed(l) => json!({"allowed_lateness_ms": l}), Late::Side => json!("side_output"), Late::Recompute => json!("recompute") },
             "base": self.base,
             "timestamps": self.ts,
@@ -50,6 +64,7 @@ impl Case {
     fn from_json(j: &Json) -> Option<Case> {
         let wm = match &j["watermark"] {
             Json::String(s) if s == "monotonic" => Wm::Monotonic,
+            o if o.get("bounded_out_of_order_huge").is_some() => Wm::BoundedHuge(o.get("bounded_out_of_order_huge")?.as_u64()? as u8),
             o => Wm::Bounded(o.get("bounded_out_of_order_ms")?.as_u64()?),
         };
         let late = match &j["late"] {
@@ -85,6 +100,7 @@ struct Obs {
 fn strategies(c: &Case) -> (WatermarkStrategy, LateDataStrategy) {
     let ws = match &c.wm {
         Wm::Bounded(d) => WatermarkStrategy::BoundedOutOfOrder { max_delay: Duration::from_millis(*d) },
+        Wm::BoundedHuge(k) => WatermarkStrategy::BoundedOutOfOrder { max_delay: huge_delay(*k) },
         Wm::Monotonic => WatermarkStrategy::MonotonicAscending,
     };
     let ls = match &c.late {
@@ -193,20 +209,7 @@ fn run_case(c: &Case) -> (Option<(String, String, String)>, Obs) {
     if let Some(clears) = &c.clears {
         return run_components(c, clears);
     }
-    let ws = match &c.wm {
-        Wm::Bounded(d) => WatermarkStrategy::BoundedOutOfOrder {
-            max_delay: Duration::from_millis(*d),
-        },
-        Wm::Monotonic => WatermarkStrategy::MonotonicAscending,
-    };
-    let ls = match &c.late {
-        Late::Drop => LateDataStrategy::Drop,
-        Late::Allowed(l) => LateDataStrategy::AllowedLateness {
-            max_lateness: Duration::from_millis(*l),
-        },
-        Late::Side => LateDataStrategy::SideOutput,
-        Late::Recompute => LateDataStrategy::RecomputeWindows,
-    };
+    let (ws, ls) = strategies(c);
     let mut s = WatermarkedStream::new(ws, ls);
     let mut obs = Obs {
         late_events: 0,
@@ -339,10 +342,16 @@ fn run_case(c: &Case) -> (Option<(String, String, String)>, Obs) {
         } else {
             exp_events.push(id.clone());
             // (3) watermark value after an on-time event (bounded out-of-orderness)
-            if let Wm::Bounded(d) = &c.wm {
+            // (a delay beyond u64 milliseconds is larger than every timestamp: the floor, 0)
+            let delay_ms: Option<u64> = match &c.wm {
+                Wm::Bounded(d) => Some(*d),
+                Wm::BoundedHuge(_) => Some(u64::MAX),
+                Wm::Monotonic => None,
+            };
+            if let Some(d) = &delay_ms {
                 let want = max_seen.unwrap().saturating_sub(*d);
                 if wm_after != want {
-                    let cause = if max_seen.unwrap() < *d { "below-zero-floor" } else { "general" };
+                    let cause = if matches!(c.wm, Wm::BoundedHuge(_)) { "delay-beyond-u64-milliseconds" } else if max_seen.unwrap() < *d { "below-zero-floor" } else { "general" };
                     return (
                         Some((
                             "watermark-value".into(),
@@ -471,7 +480,7 @@ impl Check for C13 {
         "C13"
     }
     fn rule(&self) -> String {
-        "exhaustive: every timestamp sequence of length L over 0..=6 ms x bounded-out-of-order delays 0..=4 ms (+ monotonic) x 6 late-data configurations, step-monitored after every add_event (so every prefix is checked); the Side and Allowed(1) configurations once more through a WatermarkGenerator + LateDataHandler pair driven by hand with the consumer calling clear_side_output() before offers #2 and #4; random: lengths 1..=12 over a dense domain, also on an epoch-sized base, one in four on a time scale of x100..x1000 (delays and lateness bounds of a second and more), one in three through the hand-driven components with clear_side_output() at random points. A case is non-trivial when at least one event was late AND the watermark advanced at least once; distinct by (configuration, timestamp sequence).".into()
+        "exhaustive: every timestamp sequence of length L over 0..=6 ms x bounded-out-of-order delays 0..=4 ms (+ monotonic) x 6 late-data configurations, step-monitored after every add_event (so every prefix is checked); the Side and Allowed(1) configurations once more through a WatermarkGenerator + LateDataHandler pair driven by hand with the consumer calling clear_side_output() before offers #2 and #4; random (1 case in 24 with a bounded-out-of-order delay beyond u64 milliseconds: Duration::MAX, from_secs(u64::MAX), from_millis(u64::MAX)): lengths 1..=12 over a dense domain, also on an epoch-sized base, one in four on a time scale of x100..x1000 (delays and lateness bounds of a second and more), one in three through the hand-driven components with clear_side_output() at random points. A case is non-trivial when at least one event was late AND the watermark advanced at least once; distinct by (configuration, timestamp sequence).".into()
     }
     fn assumptions(&self) -> Vec<String> {
         vec![
@@ -547,7 +556,13 @@ impl Check for C13 {
                 let n = 1 + rng.below(12);
                 let dom = *rng.pick(&[4u64, 8, 16, 40]);
                 let base = if rng.chance(1, 4) { 1_790_000_000_000u64 } else { 0 };
-                let wm = if rng.chance(1, 6) { Wm::Monotonic } else { Wm::Bounded(rng.below(11) as u64) };
+                let wm = if rng.chance(1, 6) {
+                    Wm::Monotonic
+                } else if rng.chance(1, 20) {
+                    Wm::BoundedHuge(rng.below(3) as u8)
+                } else {
+                    Wm::Bounded(rng.below(11) as u64)
+                };
                 let late = match rng.below(5) {
                     0 => Late::Drop,
                     1 => Late::Allowed(rng.below(6) as u64),
